@@ -90,6 +90,7 @@ const distinctCap = 400000
 
 // Ctx is the worker-side context handed to Prop.Run.
 type Ctx struct {
+	ticks int // calls of TimeUpEvery
 	Prop    *Prop
 	Tier    string
 	Shard   int
@@ -286,6 +287,13 @@ func (c *Ctx) flush() {
 	}
 	b, _ := json.Marshal(&c.rep)
 	os.WriteFile(c.outPath, b, 0o644)
+}
+
+// TimeUpEvery is TimeUp asked on every n-th call of THIS worker (a test on a global case index would be
+// reached by one shard only when n is a multiple of the number of shards).
+func (c *Ctx) TimeUpEvery(n int) bool {
+	c.ticks++
+	return c.ticks%n == 0 && c.TimeUp()
 }
 
 // Alive tells the watchdog that the worker is waiting for a long-running step of its own (a subprocess with a
